@@ -14,11 +14,12 @@ import (
 // WhopLoc. call-next-method, next-method-p and continue-whopper all consult it, possibly several times from
 // one wrapper body, and wrappers nest. Two structural conditions make "every remaining wrapper runs, in
 // order" independent of how often the location is consulted:
-//   (a) no method of WhopLoc assigns a field of its receiver (a query or a continuation that advances the
-//       shared location makes the next continuation skip a wrapper: before 454f2d0 HasNext did, so with two
-//       :around methods the second never ran);
-//   (b) wherever a WhopLoc is created next to the call of a combination's Wrap, its Current field holds the
-//       very index that combination was read with (Current+1 there made every second whopper be skipped).
+//
+//	(a) no method of WhopLoc assigns a field of its receiver (a query or a continuation that advances the
+//	    shared location makes the next continuation skip a wrapper: before 454f2d0 HasNext did, so with two
+//	    :around methods the second never ran);
+//	(b) wherever a WhopLoc is created next to the call of a combination's Wrap, its Current field holds the
+//	    very index that combination was read with (Current+1 there made every second whopper be skipped).
 func c11walk(c *core.Ctx, r *core.Reporter, rule string) {
 	r.Rule(rule, "a wrapper location is immutable and names the wrapper it belongs to: no method of WhopLoc stores into its receiver, and every WhopLoc built where a combination's Wrap is invoked carries the index that combination was read with", 8)
 	wt := c.LookupType("", "WhopLoc")
